@@ -44,7 +44,13 @@ class ModulePrinter(ExpressionPrinter):
         assert isinstance(node, ast.Exec)
 
         self.printer.keyword('exec')
-        self._expression(node.body)
+        if 0 < self.precedence(node.body) <= 7:
+            # The exec body must be an 'expr', so lambda, conditional, boolean and comparison expressions need parentheses
+            self.printer.delimiter('(')
+            self._expression(node.body)
+            self.printer.delimiter(')')
+        else:
+            self._expression(node.body)
 
         if node.globals:
             self.printer.keyword('in')
